@@ -28,10 +28,13 @@
 // `reset ... pd=<ms,ms,...>`: INodeApp.UpdateNodeState is the REAL node/app.App.UpdateNodeState with a stub
 // cluster provider whose k-th UpdateClusterState takes pd[k] ms of virtual time.
 //
-// One observation per op (pub: states in the order the provider saw them complete; upd: states in the
-// order the controller handed them to UpdateNodeState):
+// `reset ... pf=<0|1,...>`: the stub provider's k-th UpdateClusterState of the case fails (1: it returns an
+// error after its latency, the registry did not take the state) or succeeds (0, and beyond the list).
 //
-//	r=<reply class> pub=<states published> upd=<states> stop=<StopNode calls> sent=<sorted name:cmd> st=<NodeCtrl.GetState()>
+// One observation per op (pub: states in the order the provider saw them complete successfully; upd: states
+// in the order the controller handed them to UpdateNodeState; lost: states the provider refused):
+//
+//	r=<reply class> pub=<states published> upd=<states> lost=<states refused> stop=<StopNode calls> sent=<sorted name:cmd> st=<NodeCtrl.GetState()>
 package c12
 
 import (
@@ -78,7 +81,8 @@ type rec struct {
 	upd      []int // states handed to INodeApp.UpdateNodeState, in call order (the node's own state changes)
 	inCall   int   // UpdateNodeState calls that have not returned yet
 	inFlight int   // provider.UpdateClusterState calls that have not completed yet
-	pubs     []int // states as the cluster provider sees them *complete*
+	pubs     []int // states as the cluster provider sees them *complete* (successfully)
+	lost     []int // states whose provider update completed with an error
 	stops    int
 	fins     []func(bool)
 	sent     []string
@@ -232,8 +236,13 @@ type provStub struct {
 	r      *rec
 	app    *recApp
 	delays []time.Duration
+	fails  []bool
 	n      int
 }
+
+type provErr struct{}
+
+func (provErr) Error() string { return "registry unreachable" }
 
 func (p *provStub) StartMember(cluster.ICluster) error { return nil }
 func (p *provStub) StartClient(cluster.ICluster) error { return nil }
@@ -248,6 +257,13 @@ func (p *provStub) UpdateClusterState(state int) error {
 		time.Sleep(p.delays[k])
 	}
 	p.r.mu.Lock()
+	if k < len(p.fails) && p.fails[k] {
+		// the registry did not take it: nothing changes in the directory
+		p.r.lost = append(p.r.lost, state)
+		p.r.inFlight--
+		p.r.mu.Unlock()
+		return provErr{}
+	}
 	p.r.pubs = append(p.r.pubs, state)
 	p.r.inFlight--
 	auto := false
@@ -471,7 +487,7 @@ func (w *world) spawnRaw(name string) (*rawSvc, *actor.PID) {
 	return s, pid
 }
 
-func newWorld(kinds []string, stopMode string, delays []time.Duration, pattern string, autoReflect bool) *world {
+func newWorld(kinds []string, stopMode string, delays []time.Duration, pattern string, autoReflect bool, fails []bool) *world {
 	if cur != nil {
 		cur.teardown()
 	}
@@ -480,7 +496,7 @@ func newWorld(kinds []string, stopMode string, delays []time.Duration, pattern s
 	// the real stateutils.NotifyServiceRetired reaches the controller through the global app.Node
 	app.Node = app.NewNode()
 	w.ctrl = app.Node.GetNodeCtrl()
-	prov := &provStub{r: w.r, delays: delays}
+	prov := &provStub{r: w.r, delays: delays, fails: fails}
 	app.Node.SetProvider(prov)
 	resolving = w
 	np := strings.Count(pattern, "P")
@@ -541,18 +557,18 @@ func newWorld(kinds []string, stopMode string, delays []time.Duration, pattern s
 }
 
 // drain returns and clears what was recorded since the previous op.
-func (w *world) drain() (pubs, upd []int, stops int, sent []string, reply string, got bool) {
+func (w *world) drain() (pubs, upd, lost []int, stops int, sent []string, reply string, got bool) {
 	r := w.r
 	r.mu.Lock()
 	defer r.mu.Unlock()
-	pubs, upd, stops, sent, reply, got = r.pubs, r.upd, r.stops, r.sent, r.reply, r.got
-	r.pubs, r.upd, r.stops, r.sent, r.reply, r.got = nil, nil, 0, nil, "", false
+	pubs, upd, lost, stops, sent, reply, got = r.pubs, r.upd, r.lost, r.stops, r.sent, r.reply, r.got
+	r.pubs, r.upd, r.lost, r.stops, r.sent, r.reply, r.got = nil, nil, nil, 0, nil, "", false
 	sort.Strings(sent)
 	return
 }
 
 func (w *world) obs(class func(reply string, got bool) string) string {
-	pubs, upd, stops, sent, reply, got := w.drain()
+	pubs, upd, lost, stops, sent, reply, got := w.drain()
 	names := func(xs []int) string {
 		ps := make([]string, len(xs))
 		for i, p := range xs {
@@ -560,7 +576,7 @@ func (w *world) obs(class func(reply string, got bool) string) string {
 		}
 		return strings.Join(ps, ",")
 	}
-	return fmt.Sprintf("r=%s pub=%s upd=%s stop=%d sent=%s st=%s", class(reply, got), names(pubs), names(upd), stops,
+	return fmt.Sprintf("r=%s pub=%s upd=%s lost=%s stop=%d sent=%s st=%s", class(reply, got), names(pubs), names(upd), names(lost), stops,
 		strings.Join(sent, ","), stName(int(w.ctrl.GetState())))
 }
 
@@ -637,7 +653,13 @@ func exec(op string) string {
 		}
 		lst, _ := hx.KV(ws, "lst")
 		refl, _ := hx.KV(ws, "refl")
-		w := newWorld(kinds, sm, delays, lst, refl == "auto")
+		var fails []bool
+		if pf, _ := hx.KV(ws, "pf"); pf != "" {
+			for _, f := range strings.Split(pf, ",") {
+				fails = append(fails, f == "1")
+			}
+		}
+		w := newWorld(kinds, sm, delays, lst, refl == "auto", fails)
 		return w.obs(func(string, bool) string { return "-" })
 	}
 	w := cur
@@ -743,7 +765,10 @@ func exec(op string) string {
 
 var oddKinds = []string{"nno", "nnl", "nem", "dead", "nok", "raw"}
 
-type gen struct{ h *hx.T }
+type gen struct {
+	h     *hx.T
+	lossy bool // the current case has provider faults: let (virtual) time pass now and then
+}
 
 // reset draws the hosted service set: size 0..4, mostly services that can end up supporting retirement.
 func (g *gen) reset() (string, []string) {
@@ -798,6 +823,21 @@ func (g *gen) reset() (string, []string) {
 	case 1:
 		h.Count("reset.provider-delay-descending")
 		op += " pd=" + []string{"300,200,100,50,0,0", "500,400,300,200,100,0", "50,0,300,0,0,0", "0,0,300,0,0,0"}[h.R.Intn(4)]
+	}
+	// provider faults: which of the publications the registry refuses (the first / a random subset / all)
+	g.lossy = false
+	if h.R.Intn(4) == 0 {
+		pf := make([]string, 5)
+		mode := h.R.Intn(4)
+		for i := range pf {
+			pf[i] = "0"
+			if (mode == 0 && i == 0) || (mode == 3) || ((mode == 1 || mode == 2) && h.R.Intn(3) == 0) {
+				pf[i] = "1"
+			}
+		}
+		h.Count("reset.provider-faults")
+		g.lossy = true
+		op += " pf=" + strings.Join(pf, ",")
 	}
 	return op, ks
 }
@@ -907,8 +947,16 @@ func (g *gen) guided(kinds []string) []string {
 		}
 	}
 	noise()
+	// time passes (anything the node deferred fires) before the exit, in cases with provider faults
+	if g.lossy && h.R.Intn(2) == 0 {
+		h.Count("guided.time-passes-after-faults")
+		ops = append(ops, "tick")
+	}
 	if !skip() {
 		ops = append(ops, "cmd "+[]string{"exit", "exit", "web_exit"}[h.R.Intn(3)])
+	}
+	if g.lossy && h.R.Intn(2) == 0 {
+		ops = append(ops, "tick")
 	}
 	noise()
 	// late / repeated notifications and commands after the exit
@@ -1033,6 +1081,10 @@ func TestExhaustive(t *testing.T) {
 		enum("raw-raw-reflect", "reset k=raw,raw", append(append([]string{}, core[:7]...), "reflect", "cmd web_retire"), hx.EnvInt("VERIF_EXH_LEN3", 5))
 		enum("raw-nok-reflect-auto", "reset k=raw,nok refl=auto stop=inline1", full, hx.EnvInt("VERIF_EXH_LEN2", 4))
 		enum("raw-inline1-slowfirst", "reset k=raw stop=inline1 pd=300,200,100,0,0,0", full, hx.EnvInt("VERIF_EXH_LEN2", 4))
+		lossLetters := []string{"cmd retire", "cmd exit", "qack i=0 res=ok", "retired i=0", "stopdone succ=1", "tick", "cmd web_retire"}
+		enum("raw-first-refused", "reset k=raw pf=1,0,0,0", lossLetters, hx.EnvInt("VERIF_EXH_LEN3", 5))
+		enum("raw-inline1-second-refused", "reset k=raw stop=inline1 pf=0,1,0,1 pd=0,100,0,0", lossLetters, hx.EnvInt("VERIF_EXH_LEN3", 5))
+		enum("nok-all-refused", "reset k=nok stop=inline1 pf=1,1,1,1,1", lossLetters, hx.EnvInt("VERIF_EXH_LEN2", 4))
 		h.Close()
 		os.Stdout.Sync()
 		syscall.Exit(0)
